@@ -29,7 +29,7 @@ from vlib.elf import Elf
 
 PROP = "C10"
 META = {
-    "ready": False,
+    "ready": True,
     "level": "model_checking",
     "technique": "TLA+ model of the .eh_frame/.eh_frame_hdr writer model-checked with TLC; the same TLA+ predicates evaluated by TLC on tables parsed from real wild outputs; C++ exception programs executed",
     "level_text": "The writer machine (keep CIEs, keep an FDE iff its function's section is loaded and non-empty, emit and sort a search-table row, rewrite CIE pointers) is explored by TLC for every assignment of kept/gc/comdat/empty to up to 8 functions over 3 objects with shared or private CIEs, and the result predicates of the property hold in every terminal state; the identical predicates are evaluated by TLC on the tables of every generated real link (function identities by markers, independent parser), and C++ programs unwinding through wild-linked tables behave as with GNU ld.",
